@@ -126,17 +126,39 @@ def entries():
     def _(rng, mk):
         return (mk(_shape(rng, 0, 2)), rng.choice([2, (2, 1), (1, 2), (2, 2), (2, 1, 1)])), {}
 
-    def joiner(axis_ok=True, min_nd=1):
+    def joiner(name):
+        """Operands of 0-3 dimensions that differ along the axis numpy joins on (hstack: axis 1, or 0 for 1-D;
+        vstack: axis 0 of the at-least-2-D operands; dstack: axis 2 of the at-least-3-D operands)."""
         def gen(rng, mk):
-            s = _shape(rng, min_nd, 2)
+            lo = 1 if name == "concatenate" else 0
+            s = list(_shape(rng, lo, 3))
+            nd = len(s)
             k = rng.randint(2, 3)
-            kw = {"axis": _axis(rng, len(s), False)} if axis_ok and rng.random() < 0.6 else {}
-            return ([mk(s) for _ in range(k)],), kw
+            kw = {}
+            if name == "concatenate":
+                ja = 0
+                if rng.random() < 0.6:
+                    ja = _axis(rng, nd, False)
+                    kw = {"axis": ja}
+                ja %= nd
+            elif name == "hstack":
+                ja = None if nd == 0 else (0 if nd == 1 else 1)
+            elif name == "vstack":
+                ja = 0 if nd >= 2 else None
+            else:   # dstack
+                ja = 2 if nd >= 3 else None
+            ops = []
+            for _ in range(k):
+                t = list(s)
+                if ja is not None and rng.random() < 0.6:
+                    t[ja] = rng.choice([1, 2, 3])
+                ops.append(mk(tuple(t)))
+            return (ops,), kw
         return gen
-    E["concatenate"] = joiner(True)
-    E["stack"] = lambda rng, mk: (lambda s, k: (([mk(s) for _ in range(k)],), {"axis": rng.randint(-len(s) - 1, len(s))} if rng.random() < 0.6 else {}))(_shape(rng, 0, 2), rng.randint(2, 3))
+    E["concatenate"] = joiner("concatenate")
+    E["stack"] = lambda rng, mk: (lambda s, k: (([mk(s) for _ in range(k)],), {"axis": rng.randint(-len(s) - 1, len(s))} if rng.random() < 0.6 else {}))(_shape(rng, 0, 3), rng.randint(2, 3))
     for nm in ("hstack", "vstack", "dstack"):
-        E[nm] = joiner(False, 1)
+        E[nm] = joiner(nm)
 
     @reg("split")
     def _(rng, mk):
